@@ -26,22 +26,22 @@ type sessOpts struct {
 	// served, if set, runs in the server thread once the session is up
 	served func(s *srvConn, r *negRec)
 	// serverCfg may adjust the server configuration per connection
-	serverCfg func(k int, c *negCfg)
+	serverCfg  func(k int, c *negCfg)
 	noCatchAll bool
 }
 
 type sess struct {
-	o      sessOpts
-	w      *vnet.World
-	recs   []*negRec
-	conns  []*srvConn
-	cl     *Client
-	cfg    *Config
-	router *Router
-	routed []string
-	errs   []string
-	events []Event
-	park   bool // when true, server threads park after negotiation and the harness drives the connection
+	o       sessOpts
+	w       *vnet.World
+	recs    []*negRec
+	conns   []*srvConn
+	cl      *Client
+	cfg     *Config
+	router  *Router
+	routed  []string
+	errs    []string
+	events  []Event
+	park    bool // when true, server threads park after negotiation and the harness drives the connection
 	release bool
 }
 
